@@ -1,14 +1,26 @@
 (** Correspondence + property checker for C02 (funds on hold = open exchange obligations).
 
     A case is a whole history: the universe (accounts x denoms) observed, the implementation's
-    state before the first operation, and for every operation the operation (with the observed
-    accept/reject as [adm] and, for order settlements, the observed fills and net transfers) together
-    with the implementation's state observed after it: every order, commitment and payment read
-    back from the real exchange store, every hold from the real hold store, the balances from the
-    real bank.  An observation has exactly the shape of a model [state].
+    state before the first operation, and for every operation: the operation (with [adm] = every
+    check outside the model passed, and, for order settlements, the observed fills and net
+    transfers), whether the implementation ACCEPTED it, and the implementation's state observed
+    after it: every order, commitment and payment read back from the real exchange store, every
+    hold from the real hold store, the balances from the real bank, the vesting locks from the
+    real accounts.  An observation has exactly the shape of a model [state].
 
     prop:* tags evaluate the property on the implementation's own observations only;
-    corr:* tags compare the model (run from the initial observation) with the implementation. *)
+    corr:* tags compare the model (run from the initial observation) with the implementation.
+    Acceptance is compared in BOTH directions: "corr:accept" = the implementation accepted what
+    the model refuses, "corr:wrongly_rejected" = the implementation refused an operation that
+    passed every check outside the model and that the model's hold-relevant checks (spendable
+    funds for a new hold or fee, committed amount for a release, owner or permission for a
+    cancel, existence, agreed amounts for a payment ...) admit.
+
+    [CHist exact ..]: with [exact = true] the history starts from a state whose holds EQUAL the
+    obligations (checked) and the invariant is hold = obligations; with [exact = false] it starts
+    right after a genesis import whose holds exceed the obligations (the Go genesis check is a
+    coverage check) and the invariant is "hold - obligations never changes"
+    ([C02_surplus_constant]). *)
 From Coq Require Import ZArith NArith List String Bool.
 From PV Require Export Exchange.Holds Corr.CorrBase.
 Import ListNotations.
@@ -17,16 +29,22 @@ Open Scope list_scope.
 Open Scope Z_scope.
 
 Inductive case :=
-| CHist (accts denoms : list Z) (init : state) (steps : list (op * state))
+| CHist (exact : bool) (accts denoms : list Z) (init : state) (steps : list (op * bool * state))
 | CGenesis (g : state) (accepted : bool).   (* InitGenesis of hold + exchange on the records of [g] *)
 
 Definition universe (accts denoms : list Z) : list key2 :=
   flat_map (fun a => map (fun d => (a, d)) denoms) accts.
 
 (** ** The property's executable checker on one observation. *)
+Definition surplus (s : state) (k : key2) : Z := hold_of s (fst k) (snd k) - required s (fst k) (snd k).
+
 Definition hold_eq_obligations (u : list key2) (ob : state) : bool :=
-  forallb (fun k => hold_of ob (fst k) (snd k) =? required ob (fst k) (snd k))
-          (u ++ map fst (holds ob) ++ genesis_keys ob).
+  forallb (fun k => surplus ob k =? 0) (u ++ map fst (holds ob) ++ genesis_keys ob).
+
+(** hold - obligations is what it was in the starting state (0 for an exact start). *)
+Definition surplus_kept (u : list key2) (init ob : state) : bool :=
+  forallb (fun k => surplus ob k =? surplus init k)
+          (u ++ map fst (holds ob) ++ genesis_keys ob ++ map fst (holds init) ++ genesis_keys init).
 
 Definition hold_le_balance (u : list key2) (ob : state) : bool :=
   forallb (fun k => hold_of ob (fst k) (snd k) <=? bal_of ob (fst k) (snd k)) (u ++ map fst (holds ob)).
@@ -34,10 +52,10 @@ Definition hold_le_balance (u : list key2) (ob : state) : bool :=
 (** The hold moved by exactly the reserved amount of the item(s) the operation created/consumed
     (computed from the exchange records observed BEFORE the operation), and not at all when the
     operation was rejected. *)
-Definition delta_ok (u : list key2) (prev : state) (o : op) (ob : state) : bool :=
+Definition delta_ok (u : list key2) (prev : state) (o : op) (accepted : bool) (ob : state) : bool :=
   forallb (fun k =>
     let a := fst k in let d := snd k in
-    hold_of ob a d - hold_of prev a d =? (if op_adm o then reserved_delta prev o a d else 0))
+    hold_of ob a d - hold_of prev a d =? (if accepted then reserved_delta prev o a d else 0))
     (u ++ map fst (holds ob) ++ map fst (holds prev)).
 
 (** ** Model versus implementation. *)
@@ -51,36 +69,47 @@ Definition same_records (u : list key2) (m ob : state) : bool :=
           (u ++ genesis_keys ob ++ genesis_keys m)
   && (Z.of_nat (List.length (orders m)) =? Z.of_nat (List.length (orders ob)))
   && (Z.of_nat (List.length (pays m)) =? Z.of_nat (List.length (pays ob))).
+Definition same_vest (u : list key2) (m ob : state) : bool :=
+  forallb (fun k => vlock_of m (fst k) (snd k) =? vlock_of ob (fst k) (snd k))
+          (u ++ map fst (vest ob) ++ map fst (vest m)).
 
-Definition result_ok (r : result) : bool := match r with RModelFail => false | _ => true end.
+Definition result_accepts (r : result) : bool := match r with ROk => true | _ => false end.
 
-(** One step: (previous observation, model state before, operation, observation after). *)
-Definition check_step (u : list key2) (x : state * state * op * state) : list string :=
-  let '(prev, m, o, ob) := x in
+(** One step: (starting observation, previous observation, model state before, operation,
+    accepted by the implementation, observation after). *)
+Definition check_step (exact : bool) (u : list key2) (init : state)
+    (x : state * state * op * bool * state) : list string :=
+  let '(prev, m, o, accepted, ob) := x in
   let '(m', r) := step m o in
-  tag (hold_eq_obligations u ob) "prop:hold_eq_obligations" ++
+  (if exact then tag (hold_eq_obligations u ob) "prop:hold_eq_obligations"
+   else tag (surplus_kept u init ob) "prop:hold_surplus_changed") ++
   tag (hold_le_balance u ob) "prop:hold_le_balance" ++
-  tag (delta_ok u prev o ob) "prop:hold_delta_is_reserved_amount" ++
-  tag (result_ok r) "corr:accept" ++
+  tag (delta_ok u prev o accepted ob) "prop:hold_delta_is_reserved_amount" ++
+  tag (negb accepted || result_accepts r) "corr:accept" ++
+  tag (accepted || negb (result_accepts r)) "corr:wrongly_rejected" ++
   tag (same_holds u m' ob) "corr:holds" ++
   tag (same_bals u m' ob) "corr:balances" ++
-  tag (same_records u m' ob) "corr:records".
+  tag (same_records u m' ob) "corr:records" ++
+  tag (same_vest u m' ob) "corr:vesting_lock_changed".
 
-Fixpoint walk (prev m : state) (steps : list (op * state)) : list (state * state * op * state) :=
+Fixpoint walk (prev m : state) (steps : list (op * bool * state))
+  : list (state * state * op * bool * state) :=
   match steps with
   | [] => []
-  | (o, ob) :: r => (prev, m, o, ob) :: walk ob (fst (step m o)) r
+  | (o, acc, ob) :: r => (prev, m, o, acc, ob) :: walk ob (fst (step m o)) r
   end.
 
 Definition check (c : case) : list string :=
   match c with
-  | CHist accts denoms init steps =>
+  | CHist exact accts denoms init steps =>
       let u := universe accts denoms in
-      (* the theorem's hypotheses on the starting state *)
-      tag (hold_eq_obligations u init) "prop:initial_hold_eq_obligations" ++
+      (* the theorems' hypotheses on the starting state *)
+      (if exact then tag (hold_eq_obligations u init) "prop:initial_hold_eq_obligations"
+       else tag (forallb (fun k => 0 <=? surplus init k) (u ++ map fst (holds init) ++ genesis_keys init))
+                "prop:initial_hold_covers_obligations") ++
       tag (hold_le_balance u init) "prop:initial_hold_le_balance" ++
       tag (forallb (fun e => fst e <=? last_id init) (orders init)) "prop:initial_order_ids" ++
-      first_failure (check_step u) 1 (walk init init steps)
+      first_failure (check_step exact u init) 1 (walk init init steps)
   | CGenesis g accepted =>
       (* the genesis check is a coverage check: accepted iff every needed amount is on hold *)
       tag (Bool.eqb (match genesis_init g with Some _ => true | None => false end) accepted)
